@@ -34,6 +34,8 @@ props! {
     "C01" => c01,
     "C02" => c02,
     "C03" => c03,
+    "C04" => c04,
+    "C07" => c07,
     "C08" => c08,
     "C10" => c10,
     "C11" => c11,
